@@ -142,6 +142,7 @@ type Sim struct {
 	OnResult func(*StepInfo, []reflect.Value)             // after it returned
 	Override func(*StepInfo) (res []reflect.Value, ok bool) // substitute a result (errno buggify)
 
+	BasePrefix  string // replaced by "$B" in traced paths (per-process scratch dir)
 	FaultsFired map[string]int
 	Probes      map[string]int
 	Interleave  uint64 // hash over (task, call, path) of storage steps
@@ -740,6 +741,12 @@ func (s *Sim) Call(name, site string, ft reflect.Type, args []reflect.Value, rea
 	p0 := ""
 	if len(info.Paths) > 0 {
 		p0 = fdRe.ReplaceAllString(strings.Join(info.Paths, ","), "/proc/self/fd/N")
+		if s.BasePrefix != "" {
+			p0 = strings.ReplaceAll(p0, s.BasePrefix, "$B")
+		}
+		if name == "unix.Linkat" && len(info.Paths) > 0 && allDigits(info.Paths[0]) {
+			p0 = "N," + strings.Join(info.Paths[1:], ",")
+		}
 	}
 	rc := resClass(res)
 	s.Tracef("t%d %s %s %s %s", t.ID, name, info.Site, p0, rc)
@@ -830,4 +837,16 @@ func (s *Sim) SortedFaults() []string {
 	}
 	sort.Strings(k)
 	return k
+}
+
+func allDigits(s string) bool {
+	if s == "" {
+		return false
+	}
+	for i := 0; i < len(s); i++ {
+		if s[i] < '0' || s[i] > '9' {
+			return false
+		}
+	}
+	return true
 }
